@@ -356,10 +356,20 @@ std::vector<Field> build()
         Field f;
         f.name = "waveform";
         f.facts = {"waveform"};
-        add(f, "empty", [](Tr& t) { t.set_waveform({}); }, {}, {});  // read-back not predicted (derived / resampled data): only the frame condition and fixed point apply
+        // 1.x stores the high-resolution waveform as given, whatever its length; 2.x stores a 1024-point overview without
+        // opacity resampled from it (not predicted), which is the identity for a 1024-entry waveform of full opacity when the
+        // track has a usable sample count and rate, and empty otherwise
+        using Wv = std::vector<dj::waveform_entry>;
+        Wv four = {{{1, 2}, {3, 4}, {5, 6}}, {{7, 8}, {9, 10}, {11, 12}}, {{13, 14}, {15, 16}, {17, 18}}, {{250, 251}, {252, 253}, {254, 255}}};
+        Wv plain;
+        for (int i = 0; i < 1024; ++i) plain.push_back({{(uint8_t)(i % 251)}, {(uint8_t)((i * 7) % 253)}, {(uint8_t)((i * 13) % 255)}});
+        add(f, "empty", [](Tr& t) { t.set_waveform({}); }, {waveform_text({})}, {waveform_text({})});
         put(f, [](dj::track_snapshot& sn) { sn.waveform = {}; });
-        add(f, "four entries", [](Tr& t) { t.set_waveform({{{1, 2}, {3, 4}, {5, 6}}, {{7, 8}, {9, 10}, {11, 12}}, {{13, 14}, {15, 16}, {17, 18}}, {{250, 251}, {252, 253}, {254, 255}}}); }, {}, {});
-        put(f, [](dj::track_snapshot& sn) { sn.waveform = {{{1, 2}, {3, 4}, {5, 6}}, {{7, 8}, {9, 10}, {11, 12}}, {{13, 14}, {15, 16}, {17, 18}}, {{250, 251}, {252, 253}, {254, 255}}}; });
+        add(f, "four entries", [four](Tr& t) { t.set_waveform(four); }, {waveform_text(four)}, {});
+        put(f, [four](dj::track_snapshot& sn) { sn.waveform = four; });
+        add(f, "1024 entries of full opacity", [plain](Tr& t) { t.set_waveform(plain); }, {waveform_text(plain)}, {waveform_text(plain), waveform_text({})});
+        put(f, [plain](dj::track_snapshot& sn) { sn.waveform = plain; });
+        f.values[2].must_succeed = false;
         f.values[0].must_succeed = f.values[1].must_succeed = false;
         F.push_back(f);
     }
